@@ -504,6 +504,64 @@ theorem ordered_no_jitter (l : Limiter) (w : Nat) :
     rw [this.2]
     split <;> omega
 
+/-! ### deadline-honouring waits: a schedule in which every call did wait is an ordinary schedule -/
+
+/-- without a deadline, or when the wait fits into the time left, the deadline-honouring wait is the
+    plain one -/
+theorem waitNWithin_eq (l : Limiter) (s : LState) (t n : Nat) (left : Option Nat)
+    (h : ∀ w d, (reserveN l s t n).2 = some w → left = some d → w ≤ d) :
+    waitNWithin l s t n left = waitN l s t n := by
+  unfold waitNWithin waitN
+  generalize reserveN l s t n = r at h ⊢
+  obtain ⟨s', ow⟩ := r
+  cases ow with
+  | none => cases left <;> rfl
+  | some w =>
+    cases left with
+    | none => rfl
+    | some d =>
+      have := h w d rfl rfl
+      have hn : ¬ d < w := by omega
+      simp only [hn, if_false]
+
+theorem stepD_eq (l : Limiter) (s : RunSt) (op : DOp)
+    (h : op.n = 0 ∨ ∀ w d, (reserveN l s.st op.t op.n).2 = some w → op.left = some d → w ≤ d) :
+    stepD l s op = stepB l s op.toB := by
+  unfold stepD stepB DOp.toB
+  by_cases hz : op.n = 0
+  · simp only [hz, if_true]
+  · rcases h with h | h
+    · exact absurd h hz
+    · simp only [hz, if_false, waitNWithin_eq l s.st op.t op.n op.left h]
+
+/-- a valid schedule of deadline-honouring waits in which every call did wait is a valid schedule of
+    plain waits -/
+theorem validD_waited (l : Limiter) (w : Nat) :
+    ∀ (ops : List DOp) (s : RunSt), allWaitedD l s ops = true → validD l w s ops = true →
+      validB l w s (ops.map DOp.toB) = true := by
+  intro ops
+  induction ops with
+  | nil => intros; rfl
+  | cons op rest ih =>
+    intro s ha hv
+    simp only [allWaitedD, Bool.and_eq_true] at ha
+    obtain ⟨hh, ha'⟩ := ha
+    simp only [validD, Bool.and_eq_true, decide_eq_true_eq] at hv
+    obtain ⟨⟨⟨⟨hnow, hc⟩, hrd⟩, hn⟩, hv'⟩ := hv
+    have he : stepD l s op = stepB l s op.toB := by
+      apply stepD_eq
+      by_cases hz : op.n = 0
+      · exact Or.inl hz
+      · right
+        intro w' d hw hd
+        rw [hw, hd] at hh
+        simp only [Bool.or_eq_true, decide_eq_true_eq] at hh
+        rcases hh with hh | hh
+        · exact hh
+        · exact absurd hh hz
+    rw [he] at ha' hv'
+    simp only [List.map_cons, validB, Bool.and_eq_true, decide_eq_true_eq]
+    exact ⟨⟨⟨⟨hnow, hc⟩, hrd⟩, hn⟩, ih _ ha' hv'⟩
 
 end C20
 end FwdVerif
